@@ -120,7 +120,7 @@ def extrasLeft (cfg : Cfg) (P : Store) (now : Tick) : Bool :=
   hasExtras (preState cfg P now) (known cfg) cfg.reason
 
 def midStore (cfg : Cfg) (P : Store) (now : Tick) : Store :=
-  if extrasLeft cfg P now then purge P (preState cfg P now) cfg.owned (known cfg) else P
+  if extrasLeft cfg P now then purgeFallen P (preState cfg P now) (known cfg) cfg.reason else P
 
 /-- `cycle` in its main branch (handler reason, some handlers selected). -/
 theorem cycle_main (cfg : Cfg) (P : Store) (now now1 : Tick) (exec : Id → Nat → Outcome)
@@ -368,5 +368,60 @@ theorem execOnce_purpose {cfg : Cfg} {st : St} {now now1 : Tick} {exec : Id → 
       simp only [hst, Option.some.injEq] at hs
       exact ⟨h0, rfl, by rw [← hs]; rfl⟩
   · exact ⟨h, hs, rfl⟩
+
+end Kopf.C02
+
+namespace Kopf.C02
+
+/-- the pre-state of an owned handler that is not selected is its stored record, untouched -/
+theorem preState_unselected {cfg : Cfg} {P : Store} {now : Tick} {i : Id} {r : Rec}
+    (ho : i ∈ cfg.owned) (hs : i ∉ cfg.selected) (hP : P i = some r) :
+    preState cfg P now i = some { r := r, active := false, dirty := false } := by
+  unfold preState
+  by_cases hx : hasExtras (withHandlers (fromStorage P cfg.owned) cfg.selected cfg.reason now) (known cfg) cfg.reason = true
+  · simp [hx, repurpose, withHandlers, fromStorage, hs, ho, hP]
+  · simp [hx, withHandlers, fromStorage, hs, ho, hP]
+
+/-- whatever the superseded-cause purge leaves was there before … -/
+theorem midStore_some {cfg : Cfg} {P : Store} {now : Tick} {i : Id} {r : Rec}
+    (h : midStore cfg P now i = some r) : P i = some r := by
+  unfold midStore at h
+  by_cases hx : extrasLeft cfg P now = true
+  · simp only [hx, if_true] at h
+    unfold purgeFallen at h
+    split at h
+    · cases h
+    · exact h
+  · simpa [hx] using h
+
+/-- … and, for a handler that is not selected, carries no other cause's purpose -/
+theorem midStore_unselected_purpose {cfg : Cfg} {P : Store} {now : Tick} {i : Id} {r : Rec}
+    (ho : i ∈ cfg.owned) (hs : i ∉ cfg.selected) (h : midStore cfg P now i = some r) :
+    r.purpose = none ∨ r.purpose = some cfg.reason := by
+  have hP := midStore_some h
+  have hpre := preState_unselected (now := now) ho hs hP
+  have hk : i ∈ known cfg := by simp [known, ho]
+  unfold midStore at h
+  by_cases hx : extrasLeft cfg P now = true
+  · simp only [hx, if_true] at h
+    unfold purgeFallen at h
+    split at h
+    · cases h
+    · rename_i hnf
+      have hnf1 : i ∉ fallen (preState cfg P now) (known cfg) cfg.reason := by
+        intro hf; exact hnf (by simp [hf])
+      unfold fallen at hnf1
+      simp only [List.mem_filter, hk, true_and, hpre] at hnf1
+      cases hp : r.purpose with
+      | none => exact Or.inl rfl
+      | some q => right; simp [hp] at hnf1; rw [hnf1]
+  · have hx' : extrasLeft cfg P now = false := by simpa using hx
+    unfold extrasLeft hasExtras at hx'
+    rw [List.any_eq_false] at hx'
+    have := hx' i hk
+    rw [hpre] at this
+    cases hp : r.purpose with
+    | none => exact Or.inl rfl
+    | some q => right; simp [hp] at this; rw [this]
 
 end Kopf.C02
